@@ -1,4 +1,5 @@
 import TonicModel.Basic.ConnScript
+import TonicModel.Basic.ErrChain
 /-
 Model of tonic's reconnecting connection (C14):
   * `transport/channel/service/reconnect.rs::Reconnect::poll_ready`   → `step` / `loop` / `pollReady`
@@ -6,6 +7,8 @@ Model of tonic's reconnecting connection (C14):
   * how `Channel` drives it (`ready_oneshot` for an eager channel, then the `tower::buffer`
     worker: poll until ready, then call; a `poll_ready` error closes the buffer) → `drive`,
     `serve`, `session`, `connectEager`
+  * `Status::from_error` / `try_from_error` / `find_status_in_source_chain` /
+    `from_hyper_error` / `code_from_h2` (status.rs) over an abstract source chain → `ErrClass.*`
   * the end-to-end environment at quiescent points (`Connector`, `MakeSendRequestService`,
     hyper's `SendRequest::poll_ready`, `Status::from_error`)          → `E2E.*`
 The environment is a script: a list of answers, the i-th query gets the i-th answer and an
@@ -174,6 +177,107 @@ def serve (r : R) (env : List Ans) : R × List Ans × Res :=
   | (r', env', .pending) => (r', env', .hang)
   | (r', env', .panic) => (r', env', .panic)
 
+/-! ### The middleware between the buffer worker and `Reconnect` (`Connection::new`) -/
+
+/-- What the worker's `call` returns once it is resolved at a quiescent point. -/
+inductive StackOut
+  | error (e : Nat)
+  | sent (c : Nat)
+  /-- `TimeoutExpired` from `GrpcTimeout`'s `ResponseFuture`; the request went out on `c` -/
+  | expired (c : Nat)
+  | panic
+deriving DecidableEq, Repr
+
+/-- `AddOrigin::call` → `UserAgent::call` → `GrpcTimeout::call` → (`ConcurrencyLimit`,
+`RateLimit`) → `Reconnect::call`, and the resolution of `GrpcTimeout`'s `ResponseFuture`.
+Every layer calls its inner service unconditionally, so `Reconnect::call` runs — and takes a
+parked connect error — whatever the deadline is. `ResponseFuture::poll` polls the inner future
+first: a parked error is ready at once and wins over any deadline; a request that went out with
+a zero effective deadline (`zero`) cannot be answered in time: it is cut off by this
+`GrpcTimeout` or by the peer's (CANCELLED, "Timeout expired"). (tokio timers are 1 ms coarse, so
+the answer may still win the race; the harness reports both as `expired`: the call got as far
+as a live connection and its own deadline decided the rest.) -/
+def stackCall (r : R) (zero : Bool) : R × StackOut :=
+  match call r with
+  | (r', .error e) => (r', .error e)
+  | (r', .sent c) => (r', if zero then .expired c else .sent c)
+  | (r', .panic) => (r', .panic)
+
+/-- Result of one request through the worker and the middleware. -/
+inductive SRes
+  | plain (res : Res)
+  | expired (c : Nat)
+deriving DecidableEq, Repr
+
+/-- The buffer worker handling one request whose effective deadline is zero or not. -/
+def serveD (r : R) (env : List Ans) (zero : Bool) : R × List Ans × SRes :=
+  match drive r env with
+  | (r', env', .ready) =>
+    match stackCall r' zero with
+    | (r'', .error e) => (r'', env', .plain (.err e))
+    | (r'', .sent c) => (r'', env', .plain (.resp c))
+    | (r'', .expired c) => (r'', env', .expired c)
+    | (r'', .panic) => (r'', env', .plain .panic)
+  | (r', env', .failed e) => (r', env', .plain (.closed e))
+  | (r', env', .pending) => (r', env', .plain .hang)
+  | (r', env', .panic) => (r', env', .plain .panic)
+
+/-- What the environment does to a request once it is out on a connection: the peer answers it,
+or the connection dies under it (`x` identifies that error). -/
+inductive Fate
+  | answered
+  | dies (x : Nat)
+deriving DecidableEq, Repr
+
+/-- One call of a session: its effective deadline is zero or not, and its fate once sent. -/
+structure CallSpec where
+  zero : Bool
+  fate : Fate
+deriving DecidableEq, Repr
+
+inductive XRes
+  | plain (res : Res)
+  /-- cut off by its own zero deadline after going out on `c` -/
+  | expired (c : Nat)
+  /-- in flight on `c` when the connection died with error `x` -/
+  | lost (c x : Nat)
+deriving DecidableEq, Repr
+
+/-- One request of any kind through the worker. The response future of a request that went out
+is owned by that request alone: what happens to it afterwards does not touch the state machine. -/
+def serveX (r : R) (env : List Ans) (cs : CallSpec) : R × List Ans × XRes :=
+  match serveD r env cs.zero with
+  | (r', env', .expired c) => (r', env', .expired c)
+  | (r', env', .plain (.resp c)) =>
+    match cs.fate with
+    | .answered => (r', env', .plain (.resp c))
+    | .dies x => (r', env', .lost c x)
+  | (r', env', .plain (.err e)) => (r', env', .plain (.err e))
+  | (r', env', .plain (.closed e)) => (r', env', .plain (.closed e))
+  | (r', env', .plain .hang) => (r', env', .plain .hang)
+  | (r', env', .plain .panic) => (r', env', .plain .panic)
+
+/-- Sequential calls of any kinds through the buffer (as `session`). -/
+def sessionX (r : R) (env : List Ans) : List CallSpec → List XRes × R × List Ans
+  | [] => ([], r, env)
+  | cs :: rest =>
+    match serveX r env cs with
+    | (r', env', .plain (.closed e)) => (List.replicate (rest.length + 1) (.plain (.closed e)), r', env')
+    | (r', env', .plain .hang) => ([.plain .hang], r', env')
+    | (r', env', .plain .panic) => ([.plain .panic], r', env')
+    | (r', env', .plain (.resp c)) =>
+      match sessionX r' env' rest with
+      | (xs, r'', env'') => (.plain (.resp c) :: xs, r'', env'')
+    | (r', env', .plain (.err e)) =>
+      match sessionX r' env' rest with
+      | (xs, r'', env'') => (.plain (.err e) :: xs, r'', env'')
+    | (r', env', .expired c) =>
+      match sessionX r' env' rest with
+      | (xs, r'', env'') => (.expired c :: xs, r'', env'')
+    | (r', env', .lost c x) =>
+      match sessionX r' env' rest with
+      | (xs, r'', env'') => (.lost c x :: xs, r'', env'')
+
 /-- `n` sequential calls through the buffer. After `poll_ready` failed the worker answers every
 request with that error without touching the service; a hang ends the observation. -/
 def session (r : R) (env : List Ans) : Nat → List Res × R × List Ans
@@ -203,31 +307,95 @@ def channelSession (isLazy : Bool) (env : List Ans) (n : Nat) : SessBuild × Lis
     | (r', env', .pending) => (.hang, [], r', env')
     | (r', env', .panic) => (.panic, [], r', env')
 
+/-! ### How an error is turned into a gRPC status code (`status.rs`) -/
+namespace ErrClass
+open ErrChain
+
+/-- `Status::code_from_h2`: HTTP/2 reason → gRPC code. -/
+def codeFromH2 : Option Nat → Nat
+  | none => 2
+  | some n =>
+    -- NO_ERROR, PROTOCOL_ERROR, INTERNAL_ERROR, FLOW_CONTROL_ERROR, SETTINGS_TIMEOUT,
+    -- FRAME_SIZE_ERROR, COMPRESSION_ERROR, CONNECT_ERROR → INTERNAL
+    if n = 0 ∨ n = 1 ∨ n = 2 ∨ n = 3 ∨ n = 4 ∨ n = 6 ∨ n = 9 ∨ n = 10 then 13
+    else if n = 7 then 14      -- REFUSED_STREAM → UNAVAILABLE
+    else if n = 8 then 1       -- CANCEL → CANCELLED
+    else if n = 11 then 8      -- ENHANCE_YOUR_CALM → RESOURCE_EXHAUSTED
+    else if n = 12 then 7      -- INADEQUATE_SECURITY → PERMISSION_DENIED
+    else 2
+
+/-- `Status::from_hyper_error`; `next` is the hyper error's direct source. -/
+def fromHyper (h : Hyper) (next : Option Node) : Option Nat :=
+  if h.isTimeout then some 14
+  else if h.isCanceled then some 1
+  else
+    match next with
+    | some (.h2 r) => some (codeFromH2 r)
+    | _ => none
+
+/-- `find_status_in_source_chain`: walk `source()` and stop at the first error that means
+something: a `Status` (its code), `TimeoutExpired` (CANCELLED), `ConnectError` (UNAVAILABLE,
+without looking at its cause), a `hyper::Error` that `from_hyper_error` can place. -/
+def findInChain : List Node → Option Nat
+  | [] => none
+  | .status c :: _ => some c
+  | .timeoutExpired :: _ => some 1
+  | .connectError :: _ => some 14
+  | .hyper h :: rest =>
+    match fromHyper h rest.head? with
+    | some c => some c
+    | none => findInChain rest
+  | .h2 _ :: rest => findInChain rest
+  | .io _ :: rest => findInChain rest
+  | .tls :: rest => findInChain rest
+  | .transport :: rest => findInChain rest
+  | .custom _ :: rest => findInChain rest
+
+/-- `Status::try_from_error`: the outermost error itself may be a `Status` or an `h2::Error`
+(`Box::downcast`), otherwise the chain is searched. -/
+def tryFromError : List Node → Option Nat
+  | .status c :: _ => some c
+  | .h2 r :: _ => some (codeFromH2 r)
+  | chain => findInChain chain
+
+/-- `Status::from_error(..).code()`: UNKNOWN when nothing in the chain is recognised. -/
+def fromError (chain : List Node) : Nat := (tryFromError chain).getD 2
+
+/-- The error a caller gets when a connection attempt failed with `cause`, as handed to
+`Status::from_error` by `client::Grpc` (a call) or by the application (the `Err` of `connect`):
+`transport::Error` (from `Channel`) around the `ConnectError` of `MakeSendRequestService`
+(`wrapsAll`: the tree with `fix-C14-connect-error-class.patch`), around the `ConnectError` of
+`Connector::call` when the failure came from the connector inside it (`inConnector`), around the
+cause. `tower::buffer` and `hyper_timeout::TimeoutConnector` pass errors through unwrapped. -/
+def attemptChain (wrapsAll inConnector : Bool) (cause : List Node) : List Node :=
+  .transport :: ((if wrapsAll then [Node.connectError] else []) ++
+    ((if inConnector then [Node.connectError] else []) ++ cause))
+
+end ErrClass
+
 /-! ### End-to-end environment at quiescent points -/
 namespace E2E
+open ErrChain
 
-/-- Where the error of a failed attempt is raised decides how `Status::from_error` sees it. -/
-inductive ErrClass
-  | connectError
-  | other
-deriving DecidableEq, Repr
+/-- What makes the attempt fail (`accept`: nothing does). `deadPeer`: the HTTP/2 handshake on a
+closed transport ends in a `hyper::Error` that is neither a timeout nor a cancellation and whose
+source is the `io::Error` of the write; `timeout`: `hyper_timeout`'s `io::ErrorKind::TimedOut`. -/
+def causeOf : Outcome → List Node
+  | .refuse => [.io .connectionRefused]
+  | .accept => []
+  | .deadPeer => [.hyper ⟨false, false⟩, .io .brokenPipe]
+  | .timeout => [.io .timedOut]
 
-/-- `fixed = false` is the pinned tree: only the user connector's own error is wrapped in
-`ConnectError` (by `Connector::call`); a handshake failure (`hyper::Error`) and a connect
-timeout (`io::Error` from `hyper_timeout`, which sits outside `Connector`) are not.
-`fixed = true` is the tree with `fix-C14-connect-error-class.patch`: `MakeSendRequestService`
-wraps every failure of the attempt. -/
-def classOf (fixed : Bool) : Outcome → ErrClass
-  | .refuse => .connectError
-  | .accept => .connectError
-  | .deadPeer => if fixed then .connectError else .other
-  | .timeout => if fixed then .connectError else .other
+/-- The error chain of a failed attempt. `fixed = false` is the pinned tree: only the user
+connector's own error is wrapped in `ConnectError` (by `Connector::call`); a handshake failure
+(`hyper::Error`) and a connect timeout (`io::Error` from `hyper_timeout`, which sits outside
+`Connector`) are not. `fixed = true` is the tree with `fix-C14-connect-error-class.patch`:
+`MakeSendRequestService` wraps every failure of the attempt. -/
+def classOf (fixed : Bool) (o : Outcome) : List Node :=
+  ErrClass.attemptChain fixed (o = .refuse) (causeOf o)
 
-/-- `Status::from_error` on such an error: `ConnectError` in the source chain ⇒ UNAVAILABLE,
-nothing recognisable ⇒ UNKNOWN. -/
-def statusCode : ErrClass → Nat
-  | .connectError => 14
-  | .other => 2
+/-- `Status::from_error` on such an error. -/
+def statusCode (chain : List Node) : Nat := ErrClass.fromError chain
 
 structure World where
   /-- outcomes of the connection attempts still to come (past the end: refused) -/
@@ -265,12 +433,57 @@ def callRes (fixed : Bool) (w : World) : Res → CallRes
   | .hang => .hang
   | .panic => .panic
 
+/-- What a call of kind `k` turns into once it is on a connection: an ordinary call is answered;
+a zero-deadline call is cut off by `GrpcTimeout` (see `stackCall`) with the connection left as it
+is; a call whose peer dies in flight ends with the connection's error. A call that never got a
+connection ends the same way for every kind. -/
+def resK (k : CallKind) : CallRes → CallRes
+  | .resp c =>
+    match k with
+    | .plain => .resp c
+    | .zeroDeadline => .expired
+    | .peerDies => .lost c
+  | .error code att => .error code att
+  | .hang => .hang
+  | .panic => .panic
+  | .garbled => .garbled
+  | .expired => .expired
+  | .lost c => .lost c
+
+/-- The world after a call of kind `k`: the peer of an in-flight call dies. -/
+def World.afterK (w : World) (k : CallKind) (res : CallRes) : World :=
+  match k, res with
+  | .peerDies, .resp _ => { w with alive := none }
+  | _, _ => w
+
+/-- One call of kind `k` at a quiescent point. -/
+def callK (fixed : Bool) (k : CallKind) (r : R) (w : World) : Ev × R × World :=
+  match serve r (answersFor w r) with
+  | (r', _, res) =>
+    (.call (resK k (callRes fixed w res)) r'.made, r', (w.after r r').afterK k (callRes fixed w res))
+
 def runOps (fixed : Bool) (r : R) (w : World) : List Op → List Ev
   | [] => []
   | .die :: ops => .die :: runOps fixed r { w with alive := none } ops
   | .call :: ops =>
     match serve r (answersFor w r) with
     | (r', _, res) => .call (callRes fixed w res) r'.made :: runOps fixed r' (w.after r r') ops
+  | .callZero :: ops =>
+    match callK fixed .zeroDeadline r w with
+    | (ev, r', w') => ev :: runOps fixed r' w' ops
+  | .callDie :: ops =>
+    match callK fixed .peerDies r w with
+    | (ev, r', w') => ev :: runOps fixed r' w' ops
+  | .pair :: ops =>
+    -- `tower::buffer`: the worker takes the two requests in the order they were sent and handles
+    -- each completely (`poll_ready` until ready, then `call`) before the next: the first request
+    -- gets the failure of the attempt it triggered, the second triggers its own
+    match serve r (answersFor w r) with
+    | (r1, _, res1) =>
+      match serve r1 (answersFor (w.after r r1) r1) with
+      | (r2, _, res2) =>
+        .pair (callRes fixed w res1) (callRes fixed (w.after r r1) res2) r2.made ::
+          runOps fixed r2 ((w.after r r1).after r1 r2) ops
 
 /-- `Endpoint::connect_with_connector_lazy` / `connect_with_connector`, then the script. -/
 def run (fixed : Bool) (isLazy : Bool) (outcomes : List Outcome) (ops : List Op) : Trace :=
@@ -288,4 +501,64 @@ def run (fixed : Bool) (isLazy : Bool) (outcomes : List Outcome) (ops : List Op)
     | (r', _, .panic) => { build := .hang, buildAttempts := r'.made, evs := [] }
 
 end E2E
+/-! ### the same channel against a real listening socket (`Endpoint::connect` / `connect_lazy`) -/
+namespace Net
+open ErrChain
+
+/-- The network as the script drives it. `alive` is the connection whose peer is still there,
+`aliveGen` the generation of the server holding it. -/
+structure W where
+  up : Bool
+  gen : Nat
+  alive : Option Nat
+  aliveGen : Nat
+deriving DecidableEq, Repr
+
+/-- What the quiescent network answers: an attempt connects iff a server is listening. -/
+def W.world (w : W) : E2E.World :=
+  { outcomes := if w.up then [.accept] else [], alive := w.alive }
+
+def W.env (w : W) : NOp → W
+  | .up => if w.up then w else { w with up := true, gen := w.gen + 1 }
+  | .down => { w with up := false, alive := none }
+  | .call => w
+
+/-- The status of a refused connection: the OS error (`ECONNREFUSED`, `ENOENT`, …) inside the
+transport's own error type, wrapped by `Connector::call` and `MakeSendRequestService`. Its class
+does not depend on the kind (`C14_attempt_error_unavailable`). -/
+def refusedCode : Nat :=
+  ErrClass.fromError (ErrClass.attemptChain true true [.custom 0, .io .connectionRefused])
+
+/-- One call at a quiescent point: what the caller sees, and the state and network after it. -/
+def callStep (r : R) (w : W) : NRes × R × W :=
+  match serve r (E2E.answersFor w.world r) with
+  | (r', _, .resp c) =>
+    (.resp (if w.alive = some c then w.aliveGen else w.gen), r',
+      { w with alive := some c, aliveGen := if w.alive = some c then w.aliveGen else w.gen })
+  | (r', _, .err _) => (.error refusedCode, r', { w with alive := none })
+  | (r', _, .closed _) => (.garbled, r', w)
+  | (r', _, .hang) => (.hang, r', w)
+  | (r', _, .panic) => (.garbled, r', w)
+
+def runOps (r : R) (w : W) : List NOp → List NRes
+  | [] => []
+  | .up :: ops => runOps r (w.env .up) ops
+  | .down :: ops => runOps r (w.env .down) ops
+  | .call :: ops =>
+    match callStep r w with
+    | (res, r', w') => res :: runOps r' w' ops
+
+/-- `Endpoint::connect_lazy()` / `Endpoint::connect()` after the environment's steps `pre`, then
+the script `post`. -/
+def run (isLazy : Bool) (pre post : List NOp) : NTrace :=
+  let w : W := pre.foldl W.env { up := false, gen := 0, alive := none, aliveGen := 0 }
+  if isLazy then { build := .ok, evs := runOps (R.init true) w post }
+  else
+    match connectEager (E2E.answersFor w.world (R.init false)) with
+    | (r', _, .ready) => { build := .ok, evs := runOps r' { w with alive := some r'.made, aliveGen := w.gen } post }
+    | (_, _, .failed _) => { build := .error refusedCode, evs := [] }
+    | (_, _, .pending) => { build := .hang, evs := [] }
+    | (_, _, .panic) => { build := .hang, evs := [] }
+
+end Net
 end Reconnect
